@@ -43,12 +43,16 @@ package rob
 //@   ensures retrCnt == upd(old(retrCnt), ifaceval(self), old(retrCnt)[ifaceval(self)] + (old(inTyp)[ifaceval(self)] == 0 ? 0 : 1))
 //@   ensures forall p int :: p != ifaceval(self) ==> inTyp[p] == old(inTyp)[p] && inVal[p] == old(inVal)[p]
 //@   assigns inTyp, inVal, retrCnt
+// a port's remote name is a function of the port (AsRemote is a pure getter)
+//@ ufunc portRemote(p) int
 //@ iface messaging.Port.AsRemote()
 //@   trusted
 //@   assigns nothing
+//@   ensures result == portRemote(self)
 //@ iface messaging.Port.Name()
 //@   trusted
 //@   assigns nothing
+//@   ensures hastype(self, "*messaging.defaultPort") ==> result == as(self, "*messaging.defaultPort").name
 
 // ---- trusted: functions of other packages that only observe the middleware ----
 //@ ext messaging.(PortOwnerBase).GetPortByName(po, name)
